@@ -64,6 +64,9 @@ def gen_session(rng, sid, prof):
     cfg = {"cmd": rng.choice(prof.get("cmd", [8])), "hcap": rng.choice(prof.get("hcap", [16])), "set": set_id,
            "prompt": rng.choice(prof.get("prompts", [0])), "partial": rng.choice(prof.get("partial", [0])),
            "poison": prof.get("poison", False), "rawproc": rng.random() < prof.get("rawproc", 0.3)}
+    # now and then construct the Cli in the other ways the API offers (array buffers, builder defaults, Cli::new)
+    if rng.random() < prof.get("ctor_mix", 0.12):
+        cfg["ctor"] = rng.choice(["default", "arrays", "arrays", "new"])
     enter_forms = prof.get("enter_forms", [[13]])
     texts = prof.get("texts", OUT_TEXTS)
     methods = prof.get("methods", ("w", "wl", "u", "f"))
